@@ -662,6 +662,8 @@ pub fn genpoly_line(e: usize, v: usize) -> String {
 }
 
 fn gen_c07(out: &mut Out, rng: &mut Rng, thorough: bool) {
+    // the EC codewords as EMITTED into the interleaved sequence by `structure`, for arbitrary data buffers
+    crate::unitops::gen_structure(out, rng, thorough);
     // degree map, all 160 pairs
     for e in 0..4 {
         for v in 0..40 {
